@@ -50,6 +50,11 @@ def map_rule(ctx, res):
             continue
         for vi, vn in enumerate(srcn):
             want = pairs[vn] if direction == "from_serde_json" else {v: k for k, v in pairs.items()}[vn]
+            if vn in ("Array", "Object"):
+                for n in (0, 2):
+                    container_arm(P, res, rule, direction, fn_rx, inst, src, dst, dstn, vi, vn, want, n)
+                res.count("variant_mappings")
+                continue
             sh = shape.Shape(P)
             for rx, tag in cuts:
                 sh.cut(rx, tag, ret=lambda it, st, c, a, tag=tag: Top(shape.ret_ty(it, c), "R:" + tag))
@@ -80,7 +85,7 @@ def map_rule(ctx, res):
                 t = "str_from" if direction == "from_serde_json" else "str_into"
                 ok = okv and tags == [t] and ev[0][1][0] == payload[0] and isinstance(rv.fields[0], Top) and rv.fields[0].tag == "R:" + t
             else:
-                ok = okv and tags == ["into_iter", "map", "collect"] and ev[0][1][0] == payload[0] and isinstance(rv.fields[0], Top) and rv.fields[0].tag == "R:collect"
+                continue  # container arms: decided by container_arm below
             res.ob(ok, rule, key, "%s maps %s to %r after %r (expected variant %s with the payload converted by the canonical conversion only)" % (direction, vn, rv, tags, want),
                    sample={"direction": direction, "variant": vn, "maps_to": want, "through": tags})
         # recursion / entry construction facts (container arms)
@@ -103,6 +108,190 @@ def map_rule(ctx, res):
             res.ob(cs == [target], rule, rule + "/from-impl/" + target.rsplit("::", 1)[-1], "the From impl does not simply delegate to %s (%r)" % (target, cs))
         except Undecided as e:
             res.violation(rule, rule + "/from-impl/missing", str(e))
+
+
+def container_arm(P, res, rule, direction, fn_rx, inst, src, dst, dstn, vi, vn, want, n):
+    """Array / Object arm, decided on a container of n elements: the source container's iterator is scripted to yield n
+    distinct items (entries: a key and a value each), the recursive conversion and the key conversion are recorded cut
+    points, and the result must hold exactly conv(item_k) (entries: (convkey(key_k), conv(value_k))) for k = 0..n-1 in
+    order — whichever way the code walks and builds (iterator chain and collect, explicit loop and push, ...)."""
+    from ..absint import CallThen, FnItem
+    from ..summ import AVec, LogVec, closure_instance
+    key = "%s/%s/%s/n=%d" % (rule, direction, vn, n)
+    sh = shape.Shape(P)
+    payload = Top(src["variants"][vi]["fields"][0]["ty"], "payload")
+    kconv = "str_from" if direction == "from_serde_json" else "str_into"
+
+    def tagof(v):
+        return v.tag if isinstance(v, Top) else repr(v)
+
+    sh.cut(fn_rx, "conv", ret=lambda it, st, c, a: Top(shape.ret_ty(it, c), ("conv", tagof(a[0]))))
+    for rx in (r"^<smallstr::string::SmallString<.*> as std::convert::From<std::string::String>>::from$", r"^smallstr::string::SmallString::<.*>::into_string$"):
+        sh.cut(rx, "kconv", ret=lambda it, st, c, a: Top(shape.ret_ty(it, c), ("kconv", tagof(a[0]))))
+
+    def into_iter(it, st, inst_, args, call):
+        if args and args[0] == payload:
+            st.emit("walk", (), (), inst_["name"])
+            return Top(shape.ret_ty(it, call), "the-iterator")
+        return NotImplemented
+
+    sh.it.summaries.insert(0, (lambda i_: i_["name"].endswith("as std::iter::IntoIterator>::into_iter"), into_iter))
+
+    def item(st, ty, k):
+        t = P.types[ty]
+        if t["k"] == "tuple" and len(t["fields"]) == 2:
+            return Agg(ty, 0, (Top(t["fields"][0], ("key", k)), Top(t["fields"][1], ("val", k))))
+        if t["k"] == "adt" and t.get("name") == "json_syntax::object::Entry":
+            return Agg(ty, 0, tuple(Top(f["ty"], ({"key": "key", "value": "val"}[f["name"]], k)) for f in t["variants"][0]["fields"]))
+        return Top(ty, ("item", k))
+
+    def scripted_next(st, opt_ty):
+        k = st.ctr.get("scripted", 0)
+        st.ctr["scripted"] = k + 1
+        if k >= n:
+            return Agg(opt_ty, 0, ())
+        return Agg(opt_ty, 1, (item(st, P.types[opt_ty]["variants"][1]["fields"][0]["ty"], k),))
+
+    def nxt(it, st, inst_, args, call):
+        v = shape.deref(it, st, args[0], 2) if args else None
+        if isinstance(v, Top) and v.tag == "the-iterator":
+            return scripted_next(st, shape.ret_ty(it, call))
+        return NotImplemented
+
+    sh.it.summaries.insert(0, (lambda i_: i_["name"].endswith("as std::iter::Iterator>::next"), nxt))
+
+    def hint(it, st, inst_, args, call):
+        v = shape.deref(it, st, args[0], 2) if args else None
+        if isinstance(v, Top) and v.tag in ("the-iterator", "payload"):
+            return Top(shape.ret_ty(it, call), "size")
+        return NotImplemented
+
+    sh.it.summaries.insert(0, (lambda i_: bool(re.search(r"(::size_hint|::len|::is_empty)$", i_["name"])), hint))
+
+    # `walk.map(f).collect()` into a std / serde_json collection: drain the adaptor chain by hand
+    def drain(it, st, v, item_ty, then):
+        """Calls then(it, st, [items]) with the items the iterator value v yields."""
+        if isinstance(v, Top) and v.tag == "the-iterator":
+            out = []
+            for k in range(n):
+                out.append(item(st, item_ty(v), k))
+            st.ctr["scripted"] = n + 1
+            return then(it, st, out)
+        if isinstance(v, Agg) and v.ty is not None and P.types[v.ty].get("name") == "std::iter::Map":
+            names = [f["name"] for f in P.types[v.ty]["variants"][0]["fields"]]
+            inner, f = v.fields[names.index("iter")], v.fields[names.index("f")]
+            if isinstance(f, FnItem):
+                fid, fargs = f.inst, (lambda x: [x])
+            elif isinstance(f, Agg) and f.ty is not None and P.types[f.ty]["k"] == "closure":
+                fid = closure_instance(P, f.ty)
+                cell = st.new_obj(f)
+                fargs = lambda x: [Ref(("H", cell.id), ()), x]
+            else:
+                raise Undecided("map over an unknown function %r" % (f,))
+            if fid is None:
+                raise Undecided("the mapped closure cannot be identified")
+
+            def apply_all(it_, st_, items, acc):
+                if not items:
+                    return then(it_, st_, acc)
+                if isinstance(f, FnItem) and re.search(fn_rx, P.inst[fid]["name"]):
+                    # the recursive conversion passed as a function item: the same cut point as a direct call
+                    st_.emit("conv", (items[0],), (), P.inst[fid]["name"])
+                    return apply_all(it_, st_, items[1:], acc + [Top(P.inst[fid]["locals"][0], ("conv", tagof(items[0])))])
+                return CallThen(fid, fargs(items[0]), lambda it2, st2, rv: apply_all(it2, st2, items[1:], acc + [rv]))
+
+            def inner_ty(_v):
+                # the closure's / function's parameter type
+                body = P.inst[fid]
+                return body["locals"][1 if isinstance(f, FnItem) else 2]
+
+            return drain(it, st, inner, inner_ty, lambda it_, st_, items: apply_all(it_, st_, items, []))
+        raise Undecided("collect over an iterator that is not the walk of the source container: %r" % (v,))
+
+    def collect(it, st, inst_, args, call):
+        rt = shape.ret_ty(it, call)
+        tn = P.types[rt].get("name") if rt is not None else None
+        if tn == "std::vec::Vec":
+            return drain(it, st, args[0], None, lambda it_, st_, items: st_.new_obj(AVec(tuple(items), "converted")))
+        if tn == "serde_json::Map":
+            def fin(it_, st_, items):
+                for x in items:
+                    st_.emit("map_insert", (x,), (), "collect")
+                return Top(rt, "the-map")
+            return drain(it, st, args[0], None, fin)
+        return NotImplemented
+
+    sh.it.summaries.insert(0, (lambda i_: bool(re.search(r"as std::iter::Iterator>::collect::<|as std::iter::FromIterator<.*>>::from_iter::<", i_["name"])), collect))
+    # builders
+    sh.cut(r"^json_syntax::Object::(new|with_capacity)$|^<json_syntax::Object as std::default::Default>::default$", "obj_new",
+           ret=lambda it, st, c, a: Top(shape.ret_ty(it, c), "the-object"))
+    sh.cut(r"^json_syntax::Object::push_entry$", "obj_push_entry", ret=lambda it, st, c, a: Conc(1))
+    sh.cut(r"^json_syntax::Object::push$", "obj_push", ret=lambda it, st, c, a: Conc(1))
+    sh.cut(r"^serde_json::Map::<.*>::(new|with_capacity)$", "map_new", ret=lambda it, st, c, a: Top(shape.ret_ty(it, c), "the-map"))
+
+    def map_insert(it, st, c, a):
+        tt = [t for t in P.types if t["k"] == "tuple" and len(t.get("fields", ())) == 2]
+        st.events[-1] = ("map_insert", (Agg(None, 0, (a[1], a[2])),), (), "insert")
+        return Agg(shape.ret_ty(it, c), 0, ())
+
+    sh.cut(r"^serde_json::Map::<.*>::insert$", "map_insert_call", ret=map_insert)
+    try:
+        outs = sh.run(inst, [Agg(src["id"], vi, [payload])])
+        if len(outs) != 1 or outs[0].outcome[0] != "return":
+            raise Undecided("%d paths (%s): the mapping depends on more than the variant" % (len(outs), [o.outcome[0] for o in outs][:4]))
+        o = outs[0]
+        rv = o.outcome[1]
+        if not (isinstance(rv, Agg) and rv.ty == dst["id"] and dstn[rv.variant] == want):
+            res.violation(rule, key, "%s maps %s to %r (expected variant %s)" % (direction, vn, rv, want))
+            return
+        ev = o.events
+        stray = [e for e in ev if e[0] == "ext"]
+        if stray:
+            raise Undecided("unreviewed call into a dependency while converting a container: %s" % stray[0][3][:120])
+        walks = [e for e in ev if e[0] == "walk"]
+        got = rv.fields[0]
+        conv = lambda kind, k: ("conv", (kind, k))
+        if vn == "Array":
+            h = o.heap.get(got.id) if isinstance(got, Obj) else None
+            if isinstance(h, AVec):
+                items = list(h.items)
+            elif isinstance(h, LogVec):
+                items = [e[4] for e in ev if e[0] == "push" and e[2] == got.id]
+            else:
+                raise Undecided("the converted array is not a tracked vector: %r" % (got,))
+            have = [tagof(x) for x in items]
+            wantl = [conv("item", k) for k in range(n)]
+        elif direction == "from_serde_json":
+            if not (isinstance(got, Top) and got.tag == "the-object"):
+                raise Undecided("the converted object is not the object that was built: %r" % (got,))
+            have = []
+            for e in ev:
+                if e[0] == "obj_push_entry":
+                    en = e[1][1]
+                    en = shape.deref(sh.it, o, en, 1) if isinstance(en, Ref) else en
+                    if not isinstance(en, Agg):
+                        raise Undecided("push_entry of an untracked entry %r" % (en,))
+                    names = [f["name"] for f in P.types[en.ty]["variants"][0]["fields"]]
+                    have.append((tagof(en.fields[names.index("key")]), tagof(en.fields[names.index("value")])))
+                elif e[0] == "obj_push":
+                    have.append((tagof(e[1][1]), tagof(e[1][2])))
+            wantl = [(("kconv", ("key", k)), conv("val", k)) for k in range(n)]
+        else:
+            if not (isinstance(got, Top) and got.tag == "the-map"):
+                raise Undecided("the converted object is not the map that was built: %r" % (got,))
+            have = []
+            for e in ev:
+                if e[0] == "map_insert":
+                    pr = e[1][0]
+                    if not (isinstance(pr, Agg) and len(pr.fields) == 2):
+                        raise Undecided("an untracked pair is inserted: %r" % (pr,))
+                    have.append((tagof(pr.fields[0]), tagof(pr.fields[1])))
+            wantl = [(("kconv", ("key", k)), conv("val", k)) for k in range(n)]
+        res.ob(have == wantl and len(walks) == 1, rule, key,
+               "%s on %s with %d element(s) builds %r, expected %r (every element converted by the recursive conversion, keys by the canonical key conversion, in order, nothing else)" % (direction, vn, n, have, wantl),
+               sample={"direction": direction, "variant": vn, "elements": n, "built": repr(have)[:200]})
+    except Undecided as e:
+        res.violation(rule, key + "/undecided", "deviates from what can be decided; while interpreting: %s" % e)
 
 
 def panic_rule(ctx, res):
